@@ -51,6 +51,7 @@ def Inv (m : Memo I K V) (t : Table K V) : Prop :=
 def Transparent (m : Memo I K V) : Prop :=
   ∀ i j, m.key i = m.skey j → m.cacheable j = true → m.accept i (m.compute j) = true → m.compute j = m.compute i
 
+omit [DecidableEq K] in
 theorem inv_nil (m : Memo I K V) : Inv m [] := by intro kv h; cases h
 
 theorem inv_tdel (m : Memo I K V) (k : K) (t : Table K V) (h : Inv m t) : Inv m (tdel k t) :=
@@ -83,7 +84,7 @@ theorem call_correct (m : Memo I K V) (ht : Transparent m) (t : Table K V) (h : 
       exact ⟨ht i j hj1.symm hj2 ha, h⟩
     | false =>
       simp only [Bool.false_eq_true, if_false]
-      refine ⟨rfl, inv_store m _ i ?_⟩
+      refine ⟨trivial, inv_store m _ i ?_⟩
       split
       · exact inv_tdel m _ t h
       · exact h
